@@ -28,6 +28,9 @@ var menu = []string{"msg:a", "timeout", "expire", "dial:answered"}
 var faults = []string{
 	"waiting-flow-deleted", "waiting-node-deleted", "router-removed", "wait-removed", "wait-type-changed",
 	"timeout-removed", "parent-flow-deleted", "parent-node-deleted", "all-other-flows-deleted", "storage:status-waiting-no-run-waiting",
+	// not a fault of the flows: a query-based group the stored contact belongs in appeared while the
+	// session waited, so its stored membership is stale (a rejected resume must not repair it either)
+	"query-group-added",
 }
 
 type replay struct {
@@ -362,6 +365,10 @@ func applyFault(root *world.Root, x *world.Exec, fault string, sessJSON []byte) 
 			}
 		}
 		fj["nodes"] = rest
+		return doc, sessJSON, true
+	case "query-group-added":
+		gs, _ := doc["groups"].([]any)
+		doc["groups"] = append(append([]any{}, gs...), world.J{"uuid": world.UUID("c10.query-group"), "name": "Everyone Named", "query": `name != ""`})
 		return doc, sessJSON, true
 	case "all-other-flows-deleted":
 		fl, _ := doc["flows"].([]any)
